@@ -178,7 +178,10 @@ TypeOf(env, e) ==
          ELSE IF ~IsDimLike(a) \/ ~IsDimLike(b) THEN Err("expected dimension type")
          ELSE IF b.k = "dim" /\ ~VIsZero(b.v) THEN Err("exponent must be scalar")
          \* a polymorphic base (0, inf, NaN) is not known to be scalar: the exponent must be a constant
-         ELSE IF a.k = "poly" THEN (IF ConstEval(e.args[2]).ok THEN Poly ELSE Err("exponent: not a constant expression"))
+         \* (any dimension to the power 0 is dimensionless)
+         ELSE IF a.k = "poly" THEN (LET c == ConstEval(e.args[2]) IN
+                                    IF ~c.ok THEN Err("exponent: not a constant expression")
+                                    ELSE IF RIsZero(c.v) THEN Dim(Scalar) ELSE Poly)
          ELSE IF VIsZero(a.v) THEN Dim(Scalar)
          ELSE LET c == ConstEval(e.args[2]) IN
               IF ~c.ok THEN Err("exponent: " \o c.why) ELSE Dim(VScale(a.v, c.v))
